@@ -33,6 +33,7 @@ type c20Src struct {
 	inDB        bool
 	node        *sim.Node
 	url         string
+	former      []*sim.Node // endpoints the stored definition named before it was edited
 }
 
 type c20Ig struct {
@@ -171,6 +172,7 @@ func c20Property(rt *rapid.T, ev *evid.Rec) {
 	var gateArmed bool
 	held := make(chan struct{}, 16)
 	release := make(chan struct{})
+	var gate func(n *sim.Node, ri sim.ReqInfo) *sim.Fault
 	for i := 0; i < nsrc; i++ {
 		// two sources may serve the same chain (a head-following node and an archive node)
 		s := &c20Src{name: fmt.Sprintf("src%d", i+1), chainID: uint64(10 + i*rapid.IntRange(0, 1).Draw(rt, "ownchain")), batch: rapid.IntRange(0, 4).Draw(rt, "batch"), conc: rapid.IntRange(0, 3).Draw(rt, "conc")}
@@ -186,7 +188,7 @@ func c20Property(rt *rapid.T, ev *evid.Rec) {
 		for b := 0; b < 4; b++ {
 			s.node.Chain.Append(plainTx(b))
 		}
-		s.node.OnRequest = func(n *sim.Node, ri sim.ReqInfo) *sim.Fault {
+		gate = func(n *sim.Node, ri sim.ReqInfo) *sim.Fault {
 			gateMu.Lock()
 			armed := gateArmed && (ri.Kind == "blocks" || ri.Kind == "headers")
 			if armed {
@@ -199,6 +201,7 @@ func c20Property(rt *rapid.T, ev *evid.Rec) {
 			}
 			return nil
 		}
+		s.node.OnRequest = gate
 		s.url = ns.Attach(s.node, "")
 		defer ns.Detach(s.url)
 		srcs = append(srcs, s)
@@ -378,7 +381,7 @@ func c20Property(rt *rapid.T, ev *evid.Rec) {
 	ec := make(chan error)
 	go mgr.Run(ec)
 	checkGen("Run", <-ec)
-	gated, b2b, storedNew, loadOverlap, savedTwice, setupFault := false, false, false, false, false, false
+	gated, b2b, storedNew, loadOverlap, savedTwice, setupFault, srcEdited := false, false, false, false, false, false, false
 	nact := rapid.IntRange(1, 5).Draw(rt, "nactions")
 	for a := 0; a < nact; a++ {
 		switch rapid.IntRange(0, 7).Draw(rt, "action") {
@@ -433,10 +436,18 @@ func c20Property(rt *rapid.T, ev *evid.Rec) {
 			checkGen("Restart after the set-up fault cleared", rerr2)
 		case 5: // a second restart arrives while the generation of the first one is still loading its tasks
 			stall := make(chan struct{})
+			var stallOnce sync.Once
+			closeStall := func() { stallOnce.Do(func() { close(stall) }) }
+			defer closeStall() // (whatever ends the case, the held query is let go)
+			// (every draw is made before anything is held)
+			ni := mkIg(fmt.Sprintf("late%d", a), "db")
 			stalled := make(chan struct{}, 1)
 			var once sync.Once
+			// where the first restart is when the second one arrives: about to read the stored
+			// integrations, the stored sources (integrations already read), or setting up its first task
+			stallAt := rapid.SampledFrom([]string{"shovel.integrations", "shovel.sources", "set application_name"}).Draw(rt, "stallat")
 			db.Fault = func(op fakepg.Op) fakepg.Fault {
-				if strings.Contains(op.SQL, "shovel.integrations") && strings.HasPrefix(strings.TrimSpace(strings.ToLower(op.SQL)), "select") {
+				if q := strings.TrimSpace(strings.ToLower(op.SQL)); strings.Contains(q, stallAt) && (strings.HasPrefix(q, "select") || strings.HasPrefix(q, "set application_name")) {
 					once.Do(func() {
 						stalled <- struct{}{}
 						<-stall
@@ -450,12 +461,11 @@ func c20Property(rt *rapid.T, ev *evid.Rec) {
 			go func() { p1 = catch(func() { e1 = mgr.Restart() }); close(d1) }()
 			select {
 			case <-stalled:
-				ni := mkIg(fmt.Sprintf("late%d", a), "db")
 				store(ni)
 				dbIgs = append(dbIgs, ni)
 				go func() { p2 = catch(func() { e2 = mgr.Restart() }); close(d2) }()
 				time.Sleep(5 * time.Millisecond)
-				close(stall)
+				closeStall()
 				for _, d := range []chan struct{}{d1, d2} {
 					select {
 					case <-d:
@@ -466,10 +476,10 @@ func c20Property(rt *rapid.T, ev *evid.Rec) {
 				}
 				loadOverlap = true
 			case <-d1:
-				close(stall)
+				closeStall()
 				close(d2)
 			case <-time.After(2 * time.Second):
-				close(stall)
+				closeStall()
 				<-d1
 				close(d2)
 			}
@@ -480,7 +490,56 @@ func c20Property(rt *rapid.T, ev *evid.Rec) {
 			if e2 != nil && e1 == nil {
 				e1 = e2
 			}
-			checkGen("Restart while loading + store+Restart", e1)
+			checkGen("Restart while loading ("+stallAt+") + store+Restart", e1)
+		case 3: // the operator points a stored source at another endpoint; the next generation uses it
+			var cands []*c20Src
+			for _, sx := range srcs {
+				if sx.inDB && !sx.inFile {
+					cands = append(cands, sx)
+				}
+			}
+			if len(cands) == 0 || c20Model(file, dbIgs, srcs).err {
+				continue
+			}
+			sx := cands[rapid.IntRange(0, len(cands)-1).Draw(rt, "editsrc")]
+			sx.node.Lock()
+			n2 := sim.NewNode(sx.node.Chain.Clone())
+			sx.node.Unlock()
+			n2.OnRequest = gate
+			u2 := ns.Attach(n2, "")
+			defer ns.Detach(u2)
+			db.DeleteRows("shovel.sources", func(v map[string]any) bool { return v["name"] == sx.name })
+			if _, err := pool.Exec(context.Background(), `insert into shovel.sources(chain_id, name, url) values ($1, $2, $3)`, int(sx.chainID), sx.name, u2); err != nil {
+				rt.Fatalf("VERIF-INCONCLUSIVE storing source: %v", err)
+			}
+			sx.former = append(sx.former, sx.node)
+			sx.node, sx.url = n2, u2
+			// and stores an integration that has all its work ahead of it
+			ni := c20Ig{name: fmt.Sprintf("moved%d", a), enabled: true, where: "db", srcs: []refmodel.SourceRef{{Name: sx.name, Start: 1, Stop: 4}}}
+			store(ni)
+			dbIgs = append(dbIgs, ni)
+			var rerr error
+			if p := catch(func() { rerr = mgr.Restart() }); p != nil {
+				fail("Restart panicked: %v (history %v)", p, hist)
+			}
+			checkGen("stored source "+sx.name+" edited + store+Restart", rerr)
+			reached := false
+			for i := 0; i < 3000 && !reached; i++ {
+				for _, r := range db.Rows("shovel.task_updates") {
+					if r["src_name"] == sx.name && r["ig_name"] == ni.name && numOf(r["num"]) >= 4 {
+						reached = true
+					}
+				}
+				if !reached {
+					time.Sleep(time.Millisecond)
+				}
+			}
+			if cnt := n2.Counts(); reached {
+				srcEdited = true
+				if cnt["http:blocks"]+cnt["http:headers"]+cnt["http:logs"]+cnt["http:receipts"] == 0 {
+					fail("the stored source %s was pointed at a new URL before the restart; integration %s of the new generation indexed blocks 1-4 without a single block request to that URL: the task does not run with its source's settings (history %v)", sx.name, ni.name, hist)
+				}
+			}
 		case 0: // a newly stored integration is picked up
 			ni := mkIg(fmt.Sprintf("new%d", a), "db")
 			store(ni)
@@ -618,11 +677,16 @@ func c20Property(rt *rapid.T, ev *evid.Rec) {
 			}
 		}
 		cnt := s.node.Counts()
+		for _, o := range s.former {
+			for k, v := range o.Counts() {
+				cnt[k] += v
+			}
+		}
 		if asked := cnt["http:blocks"] + cnt["http:headers"] + cnt["http:logs"] + cnt["http:receipts"]; done > 0 && asked == 0 {
 			fail("tasks of source %s finished (%d positions at the stop block) but the node of %s was never asked for a block: they talked to another source's node (history %v)", s.name, done, s.name, hist)
 		}
 	}
-	ev.Case(clash || unknownRef || gated || b2b, fmt.Sprint(file, dbIgs, hist), fmt.Sprintf("sameChainSources=%v", sameChain), fmt.Sprintf("manySources=%v", len(fillers) > 0), fmt.Sprintf("clash=%v", clash), fmt.Sprintf("unknownSource=%v", unknownRef), fmt.Sprintf("restartDuringStep=%v", gated), fmt.Sprintf("backToBack=%v", b2b), fmt.Sprintf("restartWhileLoading=%v", loadOverlap), fmt.Sprintf("savedTwice=%v", savedTwice), fmt.Sprintf("taskSetupFault=%v", setupFault), fmt.Sprintf("neverEndingTask=%v", forever), fmt.Sprintf("storedNew=%v", storedNew))
+	ev.Case(clash || unknownRef || gated || b2b, fmt.Sprint(file, dbIgs, hist), fmt.Sprintf("sameChainSources=%v", sameChain), fmt.Sprintf("manySources=%v", len(fillers) > 0), fmt.Sprintf("clash=%v", clash), fmt.Sprintf("unknownSource=%v", unknownRef), fmt.Sprintf("restartDuringStep=%v", gated), fmt.Sprintf("backToBack=%v", b2b), fmt.Sprintf("restartWhileLoading=%v", loadOverlap), fmt.Sprintf("savedTwice=%v", savedTwice), fmt.Sprintf("taskSetupFault=%v", setupFault), fmt.Sprintf("neverEndingTask=%v", forever), fmt.Sprintf("storedNew=%v", storedNew), fmt.Sprintf("storedSourceEdited=%v", srcEdited))
 	if (gated || b2b) && ev.WantSample(3) {
 		ev.Sample(3, map[string]any{"file_integrations": fmt.Sprint(file), "db_integrations": fmt.Sprint(dbIgs), "history": hist})
 	}
